@@ -296,6 +296,131 @@ def merge_parts(results):
     return out
 
 
+def _http_overlap_job(args):
+    """E5: request W handled to completion at every suspension point of request R (single-process asyncio server).
+
+    Oracle: (answer of R, answer of W, final members) must be what R;W or W;R give when run one after the other.
+    """
+    import posixpath
+    import urllib.parse
+
+    from ..core import asyncpoints, dav, davsys
+
+    rname, wname = args
+    base = davsys.COLL_PATHS["cal"]
+    ct = {"Content-Type": B.CT_ICS}
+    vios = {}
+    stats = {"cases": 0}
+
+    def world():
+        root = env.fresh_dir("ho")
+        os.rmdir(root)
+        shutil.copytree(davsys.template_root("tree"), root, symlinks=True)
+        w = http.WsgiWorld(root)
+        ea = asyncpoints.run(w.app, ("PUT", base + "a.ics", ct, B.ALL_BODIES["X"]))[0][1].get("etag")
+        asyncpoints.run(w.app, ("PUT", base + "b.ics", ct, B.ALL_BODIES["Z"]))
+        return w, root, ea
+
+    def reqs(ea):
+        R = {"put-a-if-match": ("PUT", base + "a.ics", dict(ct, **{"If-Match": ea}), B.ALL_BODIES["X2"]),
+             "put-a": ("PUT", base + "a.ics", ct, B.ALL_BODIES["X2"]),
+             "get-a": ("GET", base + "a.ics", {}, b""),
+             "multiget-a-b": ("REPORT", base, dict(dav.XML_CT, Depth="1"), dav.multiget_body("calendar", [base + "a.ics", base + "b.ics"], [dav.P_GETETAG, dav.P_CALDATA]))}[rname]
+        W = {"put-a-other": ("PUT", base + "a.ics", ct, X3), "put-a-if-match": ("PUT", base + "a.ics", dict(ct, **{"If-Match": ea}), X3), "delete-a": ("DELETE", base + "a.ics", {}, b""),
+             "put-b": ("PUT", base + "b.ics", ct, Z2), "new-c-uid-of-a": ("PUT", base + "c.ics", ct, C_DUP1), "delete-a-if-match": ("DELETE", base + "a.ics", {"If-Match": ea}, b"")}[wname]
+        return R, W
+
+    def status(resp):
+        if resp is None:
+            return None
+        code, hd, body = resp
+        if code == 207 and b"<ns0:error" in body or code == 207 and b":error>" in body:
+            r = http.Resp(code, hd, body)
+            return dav.effective_status(r)
+        if code in (200, 201, 204):
+            return "2xx"  # a PUT that was looked up as an update but lands as a create answers 204 instead of 201: same success
+        return code
+
+    def final(app):
+        (code, hd, body), _, _, _ = asyncpoints.run(app, ("PROPFIND", base, dict(dav.XML_CT, Depth="1"), dav.propfind_body([dav.P_GETETAG])))
+        ms = dav.parse_multistatus(body)
+        return tuple(sorted((urllib.parse.unquote(posixpath.basename(x.href)), x.prop_text(dav.P_GETETAG)) for x in ms.responses if x.href and not x.href.endswith("/")))
+
+    def consistent_read(resp):
+        """For reads: every (etag, data) pair in the answer must belong together."""
+        code, hd, body = resp
+        import hashlib
+
+        gid = lambda d: '"%s"' % hashlib.sha1(b"blob %d\x00" % len(d) + d).hexdigest()
+        if rname == "get-a":
+            return code != 200 or hd.get("etag") == gid(body)
+        if code != 207:
+            return True
+        ms = dav.parse_multistatus(body)
+        for x in ms.responses:
+            et, d = x.prop_text(dav.P_GETETAG), x.prop_text(dav.P_CALDATA)
+            if et and d is not None and et != gid(d.encode("utf-8").replace(b"\n", b"\r\n")) and et != gid(d.encode("utf-8")):
+                return False
+        return True
+
+    # sequential outcomes
+    allowed = set()
+    for order in ("RW", "WR"):
+        w, root, ea = world()
+        try:
+            R, W = reqs(ea)
+            if order == "RW":
+                r1 = asyncpoints.run(w.app, R)[0]
+                r2 = asyncpoints.run(w.app, W)[0]
+            else:
+                r2 = asyncpoints.run(w.app, W)[0]
+                r1 = asyncpoints.run(w.app, R)[0]
+            allowed.add((status(r1), status(r2), final(w.app)))
+        finally:
+            w.close()
+            shutil.rmtree(root, ignore_errors=True)
+    k = 0
+    while k < 30:
+        w, root, ea = world()
+        try:
+            R, W = reqs(ea)
+            try:
+                resp, oresp, n, labels = asyncpoints.run(w.app, R, inject_at=k, other=W)
+            except Exception as e:
+                sig = "C05|http-overlap|%s|%s|exception:%s" % (rname, wname, type(e).__name__)
+                vios.setdefault(sig, {"summary": "%s with %s handled at its suspension point %d ended with an uncaught %s (a 500)" % (rname, wname, k, type(e).__name__), "witness": {"R": rname, "W": wname, "point": k}, "count": 0})["count"] += 1
+                k += 1
+                continue
+            if k >= n:
+                break
+            stats["cases"] += 1
+            out = (status(resp), status(oresp), final(w.app))
+            if rname in ("get-a", "multiget-a-b"):
+                if not consistent_read(resp):
+                    sig = "C05|http-overlap|%s|%s|etag-and-data-of-different-versions" % (rname, wname)
+                    vios.setdefault(sig, {"summary": "a read that overlapped %s returned an ETag together with the data of another version" % wname, "witness": {"R": rname, "W": wname, "point": k}, "count": 0})["count"] += 1
+            elif out not in allowed:
+                sig = "C05|http-overlap|%s|%s|not-serialisable:%s/%s" % (rname, wname, out[0], out[1])
+                vios.setdefault(sig, {"summary": "%s overlapped by %s (handled at suspension point %d of %d): answers %s/%s with final members %s equal neither order run sequentially %s" % (rname, wname, k, n, out[0], out[1], [x[0] for x in out[2]], sorted((a, b) for a, b, c in allowed)),
+                                      "witness": {"R": rname, "W": wname, "point": k}, "count": 0})["count"] += 1
+        finally:
+            w.close()
+            shutil.rmtree(root, ignore_errors=True)
+        k += 1
+    return vios, stats
+
+
+def http_overlap_phase(rep, nw):
+    jobs = [(r, w) for r in ("put-a-if-match", "put-a", "get-a", "multiget-a-b") for w in ("put-a-other", "put-a-if-match", "delete-a", "put-b", "new-c-uid-of-a", "delete-a-if-match")]
+    with mp.get_context("fork").Pool(nw) as pool:
+        results = pool.map(_http_overlap_job, jobs, chunksize=1)
+    n = 0
+    for vios, stats in results:
+        rep.merge(vios)
+        n += stats["cases"]
+    return {"http_overlap_phase": {"pairs": len(jobs), "placements": n}}
+
+
 def run(tier, workers=None):
     rep = Reporter("C05", tier)
     nw = workers or 16
@@ -320,6 +445,7 @@ def run(tier, workers=None):
                 jobs.append((kind, "processes", ops, 2, 1500))
         for ops in PAIRS[:8]:
             jobs.append(("mem", "threads", ops, 2, 1500))
+    ho = http_overlap_phase(rep, nw)
     ctx = mp.get_context("fork")
     with ctx.Pool(nw, maxtasksperchild=4) as pool:
         results = merge_parts(pool.map(_scenario, jobs, chunksize=1))
@@ -349,6 +475,7 @@ def run(tier, workers=None):
         "scenarios_hitting_execution_cap": capped,
         "per_scenario": per,
         "preemption_bounds": sorted({j[3] for j in jobs}),
+        "http_overlap_phase": ho["http_overlap_phase"],
         "exhaustive": not capped,
         "rule": "iterative context bounding: all schedules of each scenario with at most k preemptions at file-system (and, in threads mode, shared-attribute line) scheduling points; every execution is the real store code; states = distinct (result classes, final member set) outcomes",
     }
